@@ -50,7 +50,7 @@ def gen(ctx):
     A, G = [], []
     hows = ['created', 'reopen', 'setmode', 'switches']
     aops = ['set', 'a1', 'it2', 'it0', 't0', 't-1', 'delete'] + ['m:' + m for m in METAOPS]
-    for sh in [(0,), (3,), (0, 2), (2, 2)]:
+    for sh in [(0,), (3,), (0, 2), (2, 2)] + ([] if ctx.quick else [(1,), (0, 1, 2), (2, 1, 3), (5,), (0, 3), (3, 2)]):
         for meta in (None, {'a': 1}):
             for how in hows:
                 for o in aops:
@@ -72,7 +72,7 @@ def gen(ctx):
                     c['opname'] = o
                     A.append(c)
     rops = ['a1', 'a0', 'it2', 'it0', 't0', 't-1', 'delete'] + ['m:' + m for m in METAOPS]
-    for start in [None, [0], [2, 0, 1], [0, 0]]:
+    for start in [None, [0], [2, 0, 1], [0, 0]] + ([] if ctx.quick else [[1], [3, 2, 1, 0, 1, 2, 3], [0, 2], [1, 1, 1, 1, 1, 1]]):
         for meta in (None, {'a': 1}):
             for how in hows:
                 for o in rops:
